@@ -12,6 +12,18 @@ package fs
 //@   pure
 //@ assume func (PathHasher).NewHash
 //@   pure
+//
+// File-system reads: functions of the path for the duration of one decision (the world is not modelled).
+//@ assume func (PathHasher).Hash
+//@   pure
+//@ assume func PathExists
+//@   pure
+//@ assume func FileExists
+//@   pure
+// File-system writes used by callers under contract: opaque.
+//@ assume func (PathHasher).MoveHash
+//@ assume func RemoveAll
+//@ assume func RecursiveCopy
 
 // ---------------------------------------------------------------------------------------------
 // glob() filtering (C21)
